@@ -190,9 +190,11 @@ class Gen:
         tries = 0
         while len(br) < n and tries < 30:
             tries += 1
+            snapshot = dict(self.defs)
             t = self.typ(depth - 1, ns, under_union=True, safe_rec=True)
             key = self.union_key(t)
             if key in used:
+                self.defs = snapshot          # the discarded branch's definitions never appear in the schema
                 continue
             used.add(key)
             br.append(t)
@@ -348,11 +350,95 @@ class Gen:
         return d
 
     # ------------------------------------------------------------------ data
+    # ---- single-fault injection: the value at the k-th visited node is replaced by a non-conforming one
+    fault_countdown = None
+    fault_done = None
+
+    def faulty_datum(self, t, hints=True):
+        """(datum, fault kind) with exactly one mutation at a random position; kind None if the countdown ran past the end."""
+        probe = self.datum_counting(t, hints)
+        self.fault_countdown = self.r.randrange(max(1, probe))
+        self.fault_done = None
+        try:
+            d = self.datum(t, hints=hints)
+        finally:
+            self.fault_countdown = None
+        return d, self.fault_done
+
+    def datum_counting(self, t, hints):
+        self.fault_countdown = 10 ** 9
+        state = self.r.getstate()
+        try:
+            self.datum(t, hints=hints)
+        except (NoDatum, RecursionError):
+            pass
+        n = 10 ** 9 - self.fault_countdown
+        self.fault_countdown = None
+        self.r.setstate(state)
+        return n
+
+    def bad_value(self, t):
+        """A value that does not conform to (resolved) type t under the documented mapping."""
+        r = self.r
+        k = t["k"]
+        if k == "prim":
+            n = t["name"]
+            choices = {
+                "null": [0, "", False, []],
+                "boolean": [0, 1, None, "true"],
+                "int": [2 ** 31, -2 ** 31 - 1, True, 1.0, "1", None, 2 ** 63],
+                "long": [2 ** 63, -2 ** 63 - 1, False, 1.5, "1", None],
+                "float": ["1.0", None, True, [1.0]],
+                "double": ["nan", None, False, {}],
+                "bytes": ["text", 5, None, [1, 2]],
+                "string": [b"bytes", 5, None, ["a"]],
+            }[n]
+            if t.get("lt"):
+                choices = [[], {"x": 1}]
+            self.fault_done = "wrong-type:" + n
+            return r.choice(choices)
+        if k == "enum":
+            self.fault_done = "unknown-symbol"
+            return r.choice(["NOT_A_SYMBOL", "", 5, None, t["syms"][0].lower() + "?"])
+        if k == "fixed":
+            self.fault_done = "fixed-size"
+            if t.get("lt"):
+                return r.choice([[], "x"])
+            return r.choice([b"x" * (t["size"] + 1), b"x" * max(0, t["size"] - 1) if t["size"] else b"xy", bytearray(b"x" * t["size"]), "x" * t["size"], None])
+        if k == "array":
+            self.fault_done = "not-a-sequence"
+            return r.choice(["abc", 5, None, {"a": 1}])
+        if k == "map":
+            self.fault_done = r.choice(["not-a-mapping", "non-string-key"])
+            if self.fault_done == "non-string-key":
+                return {1: self.safe_value(t["values"])}
+            return r.choice([[("a", 1)], "abc", 5, None])
+        if k == "record":
+            self.fault_done = "not-a-mapping"
+            return r.choice([[1], "abc", 5, None, ("x", "y", "z")])
+        if k == "union":
+            self.fault_done = "wrong-hint"
+            return (r.choice(["nosuchbranch", "Int", "records", ""]), None)
+        raise AssertionError(k)
+
+    def safe_value(self, t):
+        saved, self.fault_countdown = self.fault_countdown, None
+        try:
+            return self.datum(t, hints=False)
+        finally:
+            self.fault_countdown = saved
+
     def datum(self, t, depth=0, hints=True, omit=True):
         """A Python value conforming to IR type t."""
         r = self.r
         t = self.resolve(t)
         k = t["k"]
+        if self.fault_countdown is not None:
+            if self.fault_countdown == 0:
+                self.fault_countdown = -1
+                return self.bad_value(t)
+            if self.fault_countdown > 0:
+                self.fault_countdown -= 1
         if k == "prim":
             return self.prim_datum(t)
         if k == "enum":
@@ -392,7 +478,7 @@ class Gen:
             if hints and r.random() < 0.25:
                 nm = rb["full"] if rb["k"] in ("record", "enum", "fixed") else (rb["name"] if rb["k"] == "prim" else rb["k"])
                 return (nm, v)
-            if hints and rb["k"] == "record" and r.random() < 0.2:
+            if hints and rb["k"] == "record" and isinstance(v, dict) and r.random() < 0.2:
                 v = dict(v)
                 v["-type"] = rb["full"]
             return v
@@ -412,6 +498,10 @@ class Gen:
         out = {}
         for f in t["fields"]:
             ft = self.resolve(f["type"])
+            if self.fault_countdown == 0 and not f["hasdef"] and not self.accepts_null(ft) and r.random() < 0.5:
+                self.fault_countdown = -1
+                self.fault_done = "missing-required-field"
+                continue
             if omit and f["hasdef"] and r.random() < 0.5:
                 continue
             if omit and not f["hasdef"] and r.random() < 0.2 and self.accepts_null(ft):
@@ -458,7 +548,8 @@ class Gen:
                 return r.choice(DOUBLE_POOL)
             if x < 0.6:
                 return r.choice(LONG_POOL)     # ints are accepted under double
-            return struct.unpack("<d", struct.pack("<Q", r.getrandbits(64)))[0]
+            v = struct.unpack("<d", struct.pack("<Q", r.getrandbits(64)))[0]
+            return v if v == v else float("nan")        # NaN payloads are not visible to the projection: canonical NaN only
         if n == "float":
             x = r.random()
             if x < 0.5:
@@ -466,7 +557,8 @@ class Gen:
             if x < 0.6:
                 return r.choice(INT_POOL)
             if x < 0.8:
-                return struct.unpack("<f", struct.pack("<I", r.getrandbits(32)))[0]
+                v = struct.unpack("<f", struct.pack("<I", r.getrandbits(32)))[0]
+                return v if v == v else float("nan")
             e = r.randint(-50, 38)
             v = r.uniform(-10, 10) * 10.0 ** e
             return v if abs(v) < 3.4e38 else 1.0
